@@ -6,9 +6,10 @@
    `cls` for the object's own meta-class (`metamodel[obj._tx_fqn]`), `fields` for the
    attributes in `_tx_attrs.values()` order, each with the meta-attribute data the walk reads
    (`cont`, the declared class `metaattr.cls` and whether that class is a match rule) and its
-   current value (`FOne`: not a list; `FMany`: a list).  `VAtom` is any value whose class name
+   current value (`FOne`: not a list; `FMany`: a list).  `VAtom k` is any value whose class name
    is not a meta-class of the meta-model (str/int/float/bool produced by match rules, values
-   returned by processors, targets of non-containment references which are shown as "@id");
+   returned by processors, targets of non-containment references; k indexes a table of such
+   values kept by the harness);
    `VNone` is Python's None.
 
    Classes are referred to by (namespace, simple name): `_tx_fqn` equality is equality of
@@ -27,7 +28,7 @@ Record dcl := Dcl { d_cls : cref; d_match : bool }.
 
 Inductive value :=
 | VNone
-| VAtom (a : list N)
+| VAtom (a : nat)
 | VObj (id : nat) (c : cref) (fs : fields)
 with fields :=
 | FNil
@@ -352,7 +353,7 @@ Open Scope string_scope.
 Fixpoint show_value (v : value) : string :=
   match v with
   | VNone => "N"
-  | VAtom a => "'" ++ show_str a ++ "'"
+  | VAtom a => "'" ++ show_nat a ++ "'"
   | VObj id c fs =>
       "#" ++ show_nat id ++ ":" ++ show_nat (c_ns c) ++ "." ++ show_nat (c_nm c) ++ "{" ++ show_fields fs ++ "}"
   end
@@ -373,7 +374,7 @@ with show_values (vs : values) : string :=
 Definition show_event (e : nat * value) : string := show_nat (fst e) ++ "(" ++ show_value (snd e) ++ ")".
 Definition show_log (l : list (nat * value)) : string := sjoin "|" (map show_event l).
 
-Inductive action := AAtom (a : list N) | AChild.
+Inductive action := AAtom (a : nat) | AChild.
 
 Fixpoint first_obj_vs (vs : values) : option value :=
   match vs with
